@@ -667,6 +667,14 @@ def _():
              tcr_enforce_functional=False, strict_cdr3_standardization=True, suppress_warnings=True)
 
 
+@spec("standardize_shared_mapper", "io")
+def _():
+    # one mapper shared between tables: some of its source columns are absent from this (beta-only) table
+    df = RAWDF()[["TRBV", "CDR3B", "clone"]].rename(columns={"TRBV": "v_b", "CDR3B": "junction_b"})
+    return S(pyrepseq.standardize_dataframe, df, col_mapper={"v_a": "TRAV", "junction_a": "CDR3A", "v_b": "TRBV", "junction_b": "CDR3B"},
+             suppress_warnings=True)
+
+
 @spec("standardize_missing_df_raises", "io", raises=True)
 def _():
     return S(pyrepseq.standardize_dataframe)
